@@ -1212,13 +1212,20 @@ class Summaries:
                 return a[0]
             if tp == "ark_r1cs_std::eq::EqGadget::is_eq":
                 return variant("Ok", eq(a[0], a[1]))
+            if tp == "ark_r1cs_std::fields::FieldVar::is_zero":
+                return variant("Ok", eq(a[0], felem("fq", 0)))          # default body: self.is_eq(&Self::zero())
+            if tp == "ark_r1cs_std::fields::FieldVar::is_one":
+                return variant("Ok", eq(a[0], felem("fq", 1)))
             if tp == "ark_r1cs_std::eq::EqGadget::is_neq":
                 return variant("Ok", ne(a[0], a[1]))
             if tp == "ark_r1cs_std::eq::EqGadget::enforce_equal":
                 ctx.effect("enforce_equal", a[0], a[1])
                 return variant("Ok", UNIT)
             if tp == "ark_r1cs_std::eq::EqGadget::conditional_enforce_equal":
-                ctx.effect("cond_enforce_equal", a[0], a[1], a[2])
+                if a[2] is TRUE:
+                    ctx.effect("enforce_equal", a[0], a[1])       # the unconditional form, spelled out (it is the default body of enforce_equal)
+                else:
+                    ctx.effect("cond_enforce_equal", a[0], a[1], a[2])
                 return variant("Ok", UNIT)
             if tp == "ark_r1cs_std::select::CondSelectGadget::conditionally_select":
                 return variant("Ok", ite(a[0], a[1], a[2]))
@@ -1245,7 +1252,10 @@ class Summaries:
                 ctx.effect("enforce_equal", a[0], a[1])
                 return variant("Ok", UNIT)
             if tp == "ark_r1cs_std::eq::EqGadget::conditional_enforce_equal":
-                ctx.effect("cond_enforce_equal", a[0], a[1], a[2])
+                if a[2] is TRUE:
+                    ctx.effect("enforce_equal", a[0], a[1])       # the unconditional form, spelled out (it is the default body of enforce_equal)
+                else:
+                    ctx.effect("cond_enforce_equal", a[0], a[1], a[2])
                 return variant("Ok", UNIT)
             if tp == "ark_r1cs_std::R1CSVar::value":
                 return variant("Ok", mk("value_of", a[0]))
